@@ -1033,3 +1033,41 @@ Section Permute.
       + eapply Permutation_in; [apply Permutation_sym; exact PM|exact I].
   Qed.
 End Permute.
+
+(** ** [has_hostname] *)
+Section HasHostname.
+  Variable re_ok : bytes -> bool.
+  Variable re_match : bytes -> bytes -> bool.
+
+  (** for a plain hostname that is not a wild-card name, [has_hostname] says
+      exactly whether the configuration still holds something for it: a pre or
+      post rule whose domain matches it, or tree rules under that very name *)
+  Lemma has_hostname_config rt S h :
+    refines re_match rt S -> good_key h -> label_of h <> [STAR] ->
+    has_hostname re_match rt h
+    = flat_any re_match (s_pre S) h || negb (is_nil (s_tree S h)) || flat_any re_match (s_post S) h.
+  Proof.
+    intros (E1 & E2 & W & I) G NS. unfold has_hostname, has_hostname_at. rewrite E1, E2.
+    rewrite (lookup_exact_getk leafv re_match (tree rt) h G NS W). rewrite (I h G).
+    unfold nonempty. destruct (is_nil (s_tree S h)); reflexivity.
+  Qed.
+
+  Lemma has_hostname_history hist h :
+    plain_history hist -> good_key h -> label_of h <> [STAR] ->
+    has_hostname re_match (run re_ok re_match hist) h
+    = flat_any re_match (s_pre (config re_ok hist)) h || negb (is_nil (s_tree (config re_ok hist) h))
+      || flat_any re_match (s_post (config re_ok hist)) h.
+  Proof. intros P G NS. apply has_hostname_config; auto. apply run_refines; exact P. Qed.
+End HasHostname.
+
+(** for a wild-card NAME the immutable lookup reads '*' as a literal label:
+    the answer is [false] although a frontend is configured under that name *)
+Lemma has_hostname_wildcard_refuted_lemma :
+  exists hist h,
+    plain_history hist /\ good_key h /\ s_tree (config (fun _ => true) hist) h <> [] /\
+    has_hostname (fun _ _ => false) (run (fun _ => true) (fun _ _ => false) hist) h = false.
+Proof.
+  exists [OAdd (w_front w_star_a_com [47]%N [48]%N)], w_star_a_com.
+  split; [repeat constructor; cbn; discriminate|]. split; [repeat constructor; cbn; discriminate|].
+  split; vm_compute; [discriminate|reflexivity].
+Qed.
